@@ -1553,8 +1553,7 @@ EXPORT int _vsnprintf_s_chk(char *restrict dest, rsize_t dmax,
     if (unlikely((p = strnstr(fmt, "%n", RSIZE_MAX_STR)))) {
         /* at the beginning or if inside, not %%n */
         if ((p - fmt == 0) || *(p - 1) != '%') {
-            invoke_safe_str_constraint_handler("vsnprintf_s: illegal %n", dest,
-                                               EINVAL);
+            handle_error(dest, dmax, "vsnprintf_s: illegal %n", EINVAL);
             return -(EINVAL);
         }
     }
